@@ -7,7 +7,7 @@ From XD Require Import lib.ListAux lib.Toposort model.Manager model.ManagerData.
 Import ListNotations.
 Local Open Scope nat_scope.
 
-Inductive leafv := LZ (z : Z) | LFun.
+Inductive leafv := LZ (z : Z) | LFun | LFun2.
 
 Record expect := mkX {
   x_err : nat;                              (* 0 none, 1 ValueError, 2 data error, 4 fault, 9 other *)
@@ -48,7 +48,8 @@ Fixpoint nleaves (n : node) : nat :=
 Definition leaf_ok (st : node) (pl : path * leafv) : bool :=
   match nget st (fst pl), snd pl with
   | Some (Leaf z), LZ z' => Z.eqb z z'
-  | Some FunSum, LFun => true
+  | Some (Fun false), LFun => true
+  | Some (Fun true), LFun2 => true
   | _, _ => false
   end.
 
